@@ -136,6 +136,7 @@ def make_cond(name, build, run, judge=None, fixed=None, timeout=120, **kw):
         except realfs.NotMaterialisable as e:
             return {'reproduced': None, 'note': f'not materialisable: {e}'}
         finally:
+            ctx.world.close()
             modelfs.uninstall_global()
     body.__name__ = body.__qualname__ = name
     body.__module__ = check.__module__
@@ -155,6 +156,7 @@ def make_cond(name, build, run, judge=None, fixed=None, timeout=120, **kw):
         except realfs.NotMaterialisable:
             return {'skip': True}
         finally:
+            ctx2.world.close()
             modelfs.uninstall_global()
         return {'model': obs_m, 'real': _obs(ctx2, orl)}
 
@@ -187,7 +189,7 @@ def _obs(ctx, out):
         return x
     ob = getattr(ctx, 'observed', None)
     if isinstance(ob, list):
-        ob = sorted(ob)
+        ob = sorted(ob, key=repr)
     return repr((norm(out), ob))
 
 
